@@ -3,8 +3,8 @@
 cd "$(dirname "$0")" || exit 2
 P="${1:-3}"
 ./mutation.sh dhcpv4/nclient4/client.go "receiveLoop,send,SendAndRead,retryFn,Close,isClosed" "$P" C10 C11 C12
-./mutation.sh dhcpv6/nclient6/client.go "receiveLoop,send,SendAndRead,retryFn,Close,RapidSolicit,Solicit,Request" "$P" C10 C11 C12 C13
 mv ../mutation/dhcpv4_nclient4_client.go.tsv ../mutation/dhcpv4_nclient4_client.go.core.tsv
+./mutation.sh dhcpv6/nclient6/client.go "receiveLoop,send,SendAndRead,retryFn,Close,RapidSolicit,Solicit,Request" "$P" C10 C11 C12 C13
 ./mutation.sh dhcpv4/nclient4/client.go "DiscoverOffer,Request,RequestFromOffer,IsMessageType,IsCorrectServer,IsAll" "$P" C13
 mv ../mutation/dhcpv4_nclient4_client.go.tsv ../mutation/dhcpv4_nclient4_client.go.exchange.tsv
 ./mutation.sh dhcpv4/nclient4/lease.go "Release,Renew" "$P" C13
